@@ -40,7 +40,7 @@ pub fn justification(kind: &str) -> &'static str {
         "e3-out-of-scope" => "rule 'out-of-scope name': the variable is declared only inside a nested block (language reference, Local Variables: dropped at the end of its scope) and is used outside of it",
         "e4-drop-field" => "rule 'missing ... record field': the record type of the literal requires the dropped field",
         "e4-dup-field" | "e4-dup-field-decl" => "rule 'duplicate ... record field'",
-        "e4-misspell-field" | "e4-missing-field-access" => "rule 'unknown record field': the record type has no field of that name",
+"e4-misspell-field" | "e4-extra-field" | "e4-missing-field-access" => "rule 'unknown record field': the record type has no field of that name",
         "e5-nonexhaustive" => "rule 'non-exhaustive ... match': no unguarded arm covers the removed variant and there is no `_` arm",
         "e5-unreachable" => "rule 'unreachable match arm': the arm follows an unguarded `_` arm",
         "e5-misspell-variant" => "rule 'unknown name' / variant does not exist in the matched enum",
@@ -806,7 +806,7 @@ impl<'a> Gen<'a> {
                     self.push("e2-dup-arg", format!("argument {i} duplicated"), vec![(asp.s, asp.e, join(&v))]);
                 }
                 let mut v = texts.clone();
-                v.push(texts.last().cloned().unwrap_or_else(|| "1u8".into()));
+                v.push("1u8".into());
                 self.push("e2-add-arg", "one more argument".into(), vec![(asp.s, asp.e, join(&v))]);
                 for a in args {
                     self.expr(a, role("argument"));
@@ -889,6 +889,13 @@ impl<'a> Gen<'a> {
                         v[i].0 = "zzf".into();
                         self.push("e4-misspell-field", format!("field `{}` -> `zzf`", pairs[i].0), vec![(braces.s, braces.e, lit(&v))]);
                     }
+                    // a field the record type does not have, at the front and at the end
+                    let mut v = pairs.clone();
+                    v.push(("zzf".into(), "1u8".into()));
+                    self.push("e4-extra-field", "one more field `zzf` at the end".into(), vec![(braces.s, braces.e, lit(&v))]);
+                    let mut v = pairs.clone();
+                    v.insert(0, ("zzf".into(), "true".into()));
+                    self.push("e4-extra-field", "one more field `zzf` at the front".into(), vec![(braces.s, braces.e, lit(&v))]);
                 }
                 for (_, x) in fs {
                     self.expr(x, role("field value"));
